@@ -331,7 +331,7 @@ def part_b(tier, idx, res, viol):
     # messages that raise events in many states: all defs, sets
     k = -1
     for si, (canon, path) in enumerate(order):
-        if tier == "quick" and len(path) > 2:
+        if len(path) > (2 if tier == "quick" else 3):
             continue
         for ai in range(len(alpha)):
             if alpha[ai][0][:3] not in ("def", "set"):
@@ -378,7 +378,7 @@ def finish(tier, seed, m):
         "dynamic_registration_executions_with_events": m["counters"].get("b_with_events", 0),
         "samples": m["samples"][:2],
         "exhaustive": True,
-        "explanation": "graph of C15 to fixpoint with 108 simultaneous filtered callbacks per transition; dynamic registration cases in every state (quick: states of depth <= 2)",
+        "explanation": "graph of C15 to fixpoint with 108 simultaneous filtered callbacks per transition; dynamic registration cases in every state (quick: states of depth <= 2, thorough: <= 3)",
     }
     errs = []
     if m["counters"].get("nonempty_logs", 0) < 1000:
